@@ -132,7 +132,7 @@ class SimWorld(object):
 
     def __init__(self, watchers=(), arbiter_opts=None, tape=(), start=1000.0,
                  config_file=None, default_beh=None, mode='daemon',
-                 periodic=None):
+                 periodic=None, spawn_cost=1e-6):
         import circus.process
         import circus.watcher
         import circus.arbiter
@@ -147,7 +147,7 @@ class SimWorld(object):
         if default_beh is not None:
             self.kernel.default_beh = dict(default_beh)
         def _spawn_cost():
-            self.loop._vt += 1e-6
+            self.loop._vt += self.spawn_cost
         self.kernel.spawn_cost = _spawn_cost
         self.blocked = False
         self.blocked_where = None
@@ -168,6 +168,7 @@ class SimWorld(object):
         self.in_probe = False
         self.on_reply = []
         self.mode = mode
+        self.spawn_cost = spawn_cost   # virtual seconds a fork+exec takes
         self.periodic = periodic       # check_delay of the real callback
         self.exited = False
         self.exit_restarting = None
